@@ -2,6 +2,8 @@
 package main
 
 import (
+	authtypes "github.com/cosmos/cosmos-sdk/x/auth/types"
+	govtypes "github.com/cosmos/cosmos-sdk/x/gov/types"
 	"crypto/ed25519"
 	"crypto/hmac"
 	"crypto/sha256"
@@ -350,6 +352,9 @@ func (c *Chain) Exec(o Op) (string, string) {
 	if signer < 0 || signer >= len(c.Acc) {
 		return "err", "unknown signer"
 	}
+	if o.Dry != "" {
+		c.dryRun(o.Dry, msg)
+	}
 	ok, resp := c.Deliver(signer, msg)
 	if ok {
 		return "ok", ""
@@ -389,3 +394,37 @@ func (c *Chain) keyID(pem string) int64 {
 }
 
 var _ = big.NewInt
+
+// dryRun executes a message handler on a branch of the current state and throws the branch away: what baseapp does with the
+// messages of a transaction whose later message fails, with a simulation and with a mempool check.  Nothing of it may be visible
+// to what is executed afterwards.
+func (c *Chain) dryRun(what string, own sdk.Msg) {
+	defer func() { _ = recover() }()
+	ctx, _ := c.Ctx().CacheContext()
+	ctx = ctx.WithEventManager(sdk.NewEventManager()).WithGasMeter(sdk.NewInfiniteGasMeter())
+	var msg sdk.Msg
+	switch {
+	case what == "self":
+		msg = own
+	case strings.HasPrefix(what, "betprm:"):
+		parts := strings.Split(what, ":")
+		if len(parts) != 3 {
+			return
+		}
+		mn, ok1 := new(big.Int).SetString(parts[1], 10)
+		fee, ok2 := new(big.Int).SetString(parts[2], 10)
+		if !ok1 || !ok2 {
+			return
+		}
+		p := c.App.BetKeeper.GetParams(ctx)
+		p.Constraints.MinAmount = sdkmath.NewIntFromBigInt(mn)
+		p.Constraints.Fee = sdkmath.NewIntFromBigInt(fee)
+		msg = &bettypes.MsgUpdateParams{Authority: authtypes.NewModuleAddress(govtypes.ModuleName).String(), Params: p}
+	}
+	if msg == nil {
+		return
+	}
+	if h := c.App.MsgServiceRouter().Handler(msg); h != nil {
+		_, _ = h(ctx, msg)
+	}
+}
